@@ -2432,6 +2432,8 @@ def run(chk, cases=None):
         for rec in pending[:2]:
             chk.report(rec, no_failing_input=True)
     source_tie(chk, cases, outs)
+    from props import c18_tie
+    c18_tie.source_tieB(chk, cases, outs)      # second tie: _feats.py (mean_var_norm, MeanVarianceNormalization, feat_deltas)
 
 
 # ------------------------------------------------------------------------------------------
